@@ -23,7 +23,12 @@ def _gen_driver_verify():
     return driver_verify.generate()
 
 
-GEN = [_gen_driver_verify]
+def _gen_call_sites():
+    from translate import driver_verify
+    return driver_verify.generate_call_sites()
+
+
+GEN = [_gen_driver_verify, _gen_call_sites]
 MANIFEST = {
     "text": "Proof on a Lean model whose decision code (the four get_and_verify_* limit functions of driver.py) is regenerated from the source on every run as data for a fixed interpreter: for every coil configuration and every argument (ints, floats, NaN, None, bool, negative, zero) each function either raises or returns a value inside [0, limit]; every command of the modelled pulse/enable/timed_enable/disable paths built from those values is within the limits for every op sequence, and a software-timed enable is followed by its disable. The hand-written part (command paths, timers) is tied to the real Driver by correspondence on every run; the oracle checks every command that reaches the (wrapped) platform driver of a real machine.",
     "note": "Trusted: Lean kernel + standard axioms; translate/py2lean.py (Python ast -> St/Cd/Ex data) and the ~150-line interpreter Model/PyExec.lean giving that data Python's meaning (validated differentially against the real functions); floats are modelled as exact micro-units (generated parameters are decimal with <= 6 digits; only comparisons occur); asyncio timers via the repo's TimeTravelLoop. Entry points not driven: ball-device ejectors and flipper sw_flip call the same Driver methods (covered by the Driver theorems, not by their own traces).",
@@ -72,6 +77,18 @@ def gen_cfg(r):
         c["pulse_with_timed_enable"] = True
     if r.random() < 0.25:
         c["default_pulse_ms"] = "machine.kick"      # operator-adjustable default: a template over a machine variable
+    # the second coil (hold winding of the dual-wound coil) gets its own limits
+    h = {}
+    if r.random() < 0.5:
+        h["max_pulse_ms"] = r.choice([10, 30, 100])
+    if r.random() < 0.5:
+        h["allow_enable"] = True
+    if r.random() < 0.4:
+        h["default_hold_power"] = r.choice([0.25, 0.5])
+    if r.random() < 0.3:
+        h["max_pulse_power"] = 1.0
+        h["default_pulse_power"] = r.choice([0.5, 1.0])
+    c["_hold_coil"] = h
     return c
 
 
@@ -97,8 +114,10 @@ def gen_op(r):
         return ["player", r.choice(["pulse", "enable", "disable"])]
     if k < 0.84:
         return ["autofire", r.choice(["enable", "disable"])]
-    if k < 0.9:
+    if k < 0.88:
         return ["setvar", r.choice([5, 10, 20, 40, 60, 120, 250, 300, -5, 0])]
+    if k < 0.93:
+        return ["dw", r.choice(["pulse", "pulse", "enable", "disable"]), pick_ms(r), pick_pw(r)]
     return ["advance", r.choice([1, 1, 2, 3, 8, 16])]     # eighths of a second
 
 
@@ -114,9 +133,15 @@ def build_config(cfg, player, af):
     lines = ["machine_vars:", "  kick:", "    initial_value: 20", "    value_type: int", "    persist: false",
              "switches:", "  s_af:", "    number: 7", "coils:", "  c0:", "    number: 1"]
     for k, v in cfg.items():
-        lines.append("    %s: %s" % (k, yaml_val(v)))
+        if not k.startswith("_"):
+            lines.append("    %s: %s" % (k, yaml_val(v)))
     lines += ["    pulse_events: ev_pulse", "    enable_events: ev_enable", "    disable_events: ev_disable",
               "    timed_enable_events: ev_timed"]
+    lines += ["  c1:", "    number: 2"]
+    for k, v in (cfg.get("_hold_coil") or {}).items():
+        lines.append("    %s: %s" % (k, yaml_val(v)))
+    lines += ["dual_wound_coils:", "  dw:", "    main_coil: c0", "    hold_coil: c1",
+              "digital_outputs:", "  do1:", "    number: 5", "    type: driver"]
     lines += ["coil_player:"]
     for ev, d in player.items():
         lines.append("  %s:" % ev)
@@ -202,8 +227,21 @@ class Run:
         self.vm.start()
         m = self.vm.machine
         self.coil = m.coils["c0"]
-        hw = self.coil.hw_driver
+        self.coil1 = m.coils["c1"]
+        self.log1 = []
         vm = self.vm
+        hw1 = self.coil1.hw_driver
+
+        def wrap1(name, f):
+            def g(*a, **k):
+                caller = sys._getframe(1).f_code.co_name
+                self.log1.append([name, round(vm.now() * 1000), [list(x) if isinstance(x, tuple) else x for x in a],
+                                  "pulse" if caller == "_pulse_now" else "enable" if caller == "_enable_now" else self.cur])
+                return f(*a, **k)
+            return g
+        for n in ("pulse", "enable", "timed_enable", "disable"):
+            setattr(hw1, n, wrap1(n, getattr(hw1, n)))
+        hw = self.coil.hw_driver
         log = self.log
 
         def wrap(name, f):
@@ -298,13 +336,27 @@ class Run:
             elif kind == "pulse_wait":
                 c.pulse(pulse_ms=op[1], max_wait_ms=op[2])
                 self.vm.run()
+            elif kind == "dw":
+                d = m.dual_wound_coils["dw"]
+                if op[1] == "pulse":
+                    kw = {}
+                    if op[2] is not None:
+                        kw["milliseconds"] = op[2]
+                    if op[3] is not None:
+                        kw["power"] = op[3]
+                    d.pulse(**kw)
+                elif op[1] == "enable":
+                    d.enable()
+                else:
+                    d.disable()
+                self.vm.run()
             elif kind == "setvar":
                 m.variables.set_machine_var("kick", op[1])
                 for _ in range(4):      # the template's subscription future and its done-callback need a few loop turns
                     self.vm.run()
             return "ok"
         except BaseException as e:  # a refusal (or a crash) - the machine may be unusable afterwards
-            self.dead = kind not in ("pulse", "enable", "timed_enable", "disable", "enable_wait", "pulse_wait") or \
+            self.dead = kind not in ("pulse", "enable", "timed_enable", "disable", "enable_wait", "pulse_wait", "dw") or \
                 (kind in ("pulse", "enable", "timed_enable", "disable") and op[1] != "api")
             if not self.dead:
                 try:
@@ -452,14 +504,18 @@ def unpv(t):
     raise ValueError(t)
 
 
-NOSRC = ("advance", "setvar", "enable_wait", "pulse_wait")      # ops without an api/event source field
+NOSRC = ("advance", "setvar", "enable_wait", "pulse_wait", "dw")      # ops without an api/event source field
 
 
 def tok_op(op):
+    if op[0] == "dw":
+        return ["dw", op[1]] + [pv(x) for x in op[2:]]
     return [op[0]] + [x if (i == 0 and op[0] not in NOSRC and isinstance(x, str)) else pv(x) for i, x in enumerate(op[1:])]
 
 
 def untok_op(t):
+    if t[0] == "dw":
+        return ["dw", t[1]] + [unpv(x) for x in t[2:]]
     return [t[0]] + [x if (i == 0 and t[0] not in NOSRC) else unpv(x) for i, x in enumerate(t[1:])]
 
 
@@ -485,7 +541,7 @@ def run_case(ctx, cfg, player, af, ops, model, r, sample=True):
             results.append(res)
             ctx.count("op_" + op[0])
             ctx.count("res_" + res.split(":")[0])
-            if op[0] in ("player", "autofire", "enable_wait", "pulse_wait"):
+            if op[0] in ("player", "autofire", "enable_wait", "pulse_wait", "dw"):
                 synced = False       # coil_player / autofire glue and PSU waits are not in the Driver model: oracle only from here on
             if op[0] == "setvar":
                 if model is not None and not run.dead:
@@ -510,6 +566,9 @@ def run_case(ctx, cfg, player, af, ops, model, r, sample=True):
         nontrivial = any(o[0] != "advance" and any(x is not None for x in o[2:]) for o in ops) or any(x != "ok" for x in results)
         ctx.evaluated(case, nontrivial, sample=sample)
         ok = check_log(ctx, case, run.coil, run.log, end)
+        if run.log1:
+            ctx.count("hold_coil_commands", len(run.log1))
+            ok = check_log(ctx, dict(case, coil="c1"), run.coil1, run.log1, end) and ok
         pend = soft_pulse_check(ctx, case, run.log, None)
         if pend is not None and not run.dead:
             ctx.fail("soft-pulse-not-disabled", case, {"enabled_at_tick": pend, "log": run.log[-6:]})
